@@ -60,6 +60,8 @@ func sectionKind(sec string) string {
 		return "c02-stored-block-or-supplement-differs"
 	case "states", "tip-state":
 		return "c02-stored-state-differs"
+	case "tree-live-nodes":
+		return "c02-accumulator-nodes-differ"
 	case "siacoin-elements":
 		return "c02-siacoin-elements-differ"
 	case "siafund-elements":
@@ -252,6 +254,30 @@ func Judge(nd *Node, tw *Twins) (*Finding, Stats) {
 				st.CrossAllow = true
 			}
 		}
+		// the store writes to the Tree bucket exactly what core's update emits (when the
+		// height gate is open), and nothing otherwise
+		{
+			gate := x.Height <= R
+			if !s.Apply {
+				gate = x.Height <= R+1
+			}
+			emitted := map[[2]uint64]types.Hash256{}
+			if gate {
+				for _, t := range s.Diffs.Tree {
+					emitted[[2]uint64{t.Row, t.Col}] = t.Hash
+				}
+			}
+			for _, t := range s.TreeChanges {
+				if h, ok := emitted[[2]uint64{t.Row, t.Col}]; !ok || h != t.Hash {
+					return &Finding{Kind: "c02-tree-bucket-not-what-the-update-emits", Detail: fmt.Sprintf("%s of block %d changed Tree node (row %d, col %d) to %v; core's update emits %v (emitted: %v)", stepName(s), s.Node, t.Row, t.Col, t.Hash, h, ok), Step: i}, st
+				}
+			}
+			for k, h := range emitted {
+				if s.View.Tree[k] != h {
+					return &Finding{Kind: "c02-tree-bucket-not-what-the-update-emits", Detail: fmt.Sprintf("%s of block %d: core's update emits Tree node (row %d, col %d) = %v, the bucket holds %v", stepName(s), s.Node, k[0], k[1], h, s.View.Tree[k]), Step: i}, st
+				}
+			}
+		}
 		if s.View.Panic != "" {
 			return &Finding{Kind: "c02-serving-panics", Detail: fmt.Sprintf("after %s of block %d a serving function of the store panicked: %s", stepName(s), s.Node, s.View.Panic), Step: i}, st
 		}
@@ -270,20 +296,26 @@ func Judge(nd *Node, tw *Twins) (*Finding, Stats) {
 		st.Compared++
 		if f, _ := CompareWithTwin(s.View, lin, st.Trigger); f != nil {
 			f.Step = i
-			if f.Kind == "c02-file-contract-elements-differ" {
-				confined := true
+			if len(rr) > 0 && (f.Kind == "c02-file-contract-elements-differ" || f.Kind == "c02-accumulator-nodes-differ") {
+				confined, names := true, false
+				var fcDetail string
 				for _, d := range Compare(s.View, lin.View) {
 					switch d.Section {
-					case "file-contracts", "expiration-lists", "expiring-ids-served", "supplement-tip-transaction", "supplement-tip-block":
+					case "tree-live-nodes", "expiration-lists", "expiring-ids-served", "supplement-tip-transaction", "supplement-tip-block":
+					case "file-contracts":
+						fcDetail = d.Detail
+						for id := range rr {
+							if strings.Contains(d.Detail, id.String()) {
+								names = true
+							}
+						}
 					default:
 						confined = false
 					}
 				}
-				for id := range rr {
-					if confined && strings.Contains(f.Detail, id.String()) {
-						f.Kind = KindReviseResolve
-						f.Detail = "a reverted block revised and resolved one contract; core's diff for it carries the revised contract in place of the prior one, so the store restored the revision: " + f.Detail
-					}
+				if confined && names {
+					f.Kind = KindReviseResolve
+					f.Detail = "a reverted block revised and resolved one contract; core's diff for it carries the revised contract in place of the prior one, so the store restored the revision (and core's revert update rewrote the contract's accumulator leaf with the revision's hash): file-contracts: " + fcDetail
 				}
 			}
 			f.Detail = fmt.Sprintf("after %s of block %d (height %d, kinds %v; store tip %d): %s", stepName(s), s.Node, x.Height, x.Kinds, s.Tip, f.Detail)
